@@ -232,7 +232,7 @@ def run(sc, choices=None):
             # ---- state OPEN / CLOSE_SENT / PEER_CLOSED
             if op == "close":
                 tmo = int(st.get("timeout", S))
-                if dt > tmo:
+                if dt > tmo + S // 16:  # slack: scheduling latency of the timed wait
                     delivered = [e for e in w.k.log[log0:] if e[3] == "deliver" and e[4] == sock.fd and e[5] > 0]
                     rctx = "peer_keeps_sending" if delivered else "peer_silent" 
                     res.violate("close_exceeds_timeout", rctx,
